@@ -407,14 +407,13 @@ pub fn arb_payload(utf8: bool, max_big: usize) -> BoxedStrategy<Vec<u8>> {
     } else {
         prop::collection::vec(any::<u8>(), 0..40).boxed()
     };
-    let bigs: Vec<usize> = [4095usize, 4096, 4097, 8192, 65536]
+    // lengths around the zero-copy threshold, and lengths whose varint prefix changes width
+    // (the short ones are cheap and always in)
+    let bigs: Vec<usize> = [63usize, 64, 127, 128, 129, 255, 256, 16383, 16384, 16385, 4095, 4096, 4097, 8192, 65536]
         .iter()
         .copied()
-        .filter(|l| *l <= max_big)
+        .filter(|l| *l <= max_big.max(300))
         .collect();
-    if bigs.is_empty() {
-        return small;
-    }
     let big = (prop::sample::select(bigs), any::<u8>()).prop_map(move |(len, seed)| {
         (0..len)
             .map(|i| {
@@ -534,7 +533,9 @@ pub fn arb_of(tt: TT, depth: u32, cfg: GenCfg) -> BoxedStrategy<TVal> {
                     let max = if et.is_container() || et == TT::Binary { cfg.max_children } else { 40 };
                     // small sizes most of the time; 15..=max to reach the long-form size header
                     let len = if max > 16 {
-                        prop_oneof![5 => 0usize..=6, 1 => 13usize..=17, 1 => 0usize..=max].boxed()
+                        // 15: long-form size header; 64 / 128: the varint of the size (and of a
+                        // zig-zagged size) changes width
+                        prop_oneof![20 => 0usize..=6, 4 => 13usize..=17, 4 => 0usize..=max, 1 => prop::sample::select(vec![63usize, 64, 65, 127, 128, 129])].boxed()
                     } else {
                         (0usize..=max).boxed()
                     };
@@ -550,7 +551,7 @@ pub fn arb_of(tt: TT, depth: u32, cfg: GenCfg) -> BoxedStrategy<TVal> {
                     let heavy = kt.is_container() || vt.is_container();
                     let max = if heavy { cfg.max_children.min(4) } else { 18 };
                     let len = if max > 16 {
-                        prop_oneof![5 => 0usize..=4, 1 => 14usize..=18].boxed()
+                        prop_oneof![20 => 0usize..=4, 4 => 14usize..=18, 1 => prop::sample::select(vec![63usize, 64, 65, 127, 128, 129])].boxed()
                     } else {
                         (0usize..=max).boxed()
                     };
